@@ -843,4 +843,271 @@ theorem C14_cli_dict_model (ovs rms : List Op) : (cliOverrides ovs rms).map toOv
   rfl
 
 
+/-! ## Code tie: `--list-items` (`_query_actions._list_items` with `ConfigParser.parsed_sections` / `.orphan_sections`), regenerated from the source -/
+namespace ListTie
+open Atsim.Gen.Logic
+
+/-- the items of one section as `_list_section` lists them: `SECTION:KEY` and the value, in the section's key order -/
+def sectionItems (sectionKeys : IniRec → String → List String) (getValue : IniRec → String → String → String) (raw : IniRec) (s : String) : List (String × String) :=
+  (sectionKeys raw s).map fun k => (s ++ ":" ++ k, getValue raw s k)
+
+/-- the five sections that are listed through `parsed_sections`, in the order `_list_items` takes them -/
+def knownOrder : List String := ["Pair", "Potential-Form", "Tabulation", "EAM-Embed", "EAM-Density"]
+
+/-- the keys of `ConfigParser._section_map` -/
+def mapKeys : List String := ["Tabulation", "Pair", "EAM-Embed", "Potential-Form", "EAM-Density", "Table-Form"]
+
+/-- the sections `_list_items` lists, in its order: the known ones that are present; the table forms (and a section called exactly `Table-Form`) in file order; the
+sections the parser does not know, in file order -/
+def listedSections (hasSection : IniRec → String → Bool) (sectionsOf : IniRec → List String) (isRelevant : String → Bool) (raw : IniRec) : List String :=
+  knownOrder.filter (hasSection raw) ++
+  (sectionsOf raw).filter (fun s => isRelevant s || s == "Table-Form") ++
+  (sectionsOf raw).filter (fun s => !isRelevant s && !mapKeys.contains s)
+
+section
+variable (hasSection : IniRec → String → Bool) (sectionKeys : IniRec → String → List String) (getValue : IniRec → String → String → String)
+    (sectionsOf : IniRec → List String) (defaultKeys : IniRec → List String) (isRelevant : String → Bool)
+
+theorem list_section_loop1_eq (cp : CpObj) (raw : IniRec) (s : String) (ks : List String) (acc : List (String × String)) :
+    list_section_loop1 hasSection sectionKeys getValue sectionsOf defaultKeys isRelevant cp acc raw s ks =
+      acc ++ ks.map fun k => (s ++ ":" ++ k, getValue raw s k) := by
+  induction ks generalizing acc with
+  | nil => simp [list_section_loop1]
+  | cons k ks ih => simp only [list_section_loop1, ih, List.map_cons, List.append_assoc, List.singleton_append]
+
+theorem list_section_eq (cp : CpObj) (s : String) :
+    list_section hasSection sectionKeys getValue sectionsOf defaultKeys isRelevant cp s = sectionItems sectionKeys getValue cp.raw s := by
+  simp only [list_section, list_section_loop1_eq, sectionItems, List.nil_append]
+
+theorem parse_raw_loop1_eq (cp : CpObj) (os : List String) (ss : List String) (acc : List (String × String)) :
+    parse_raw_loop1 hasSection sectionKeys getValue sectionsOf defaultKeys isRelevant cp os acc ss =
+      acc ++ ss.flatMap (sectionItems sectionKeys getValue cp.raw) := by
+  induction ss generalizing acc with
+  | nil => simp [parse_raw_loop1]
+  | cons k ks ih => simp only [parse_raw_loop1, ih, list_section_eq, List.flatMap_cons, List.append_assoc]
+
+theorem parse_raw_eq (cp : CpObj) (ss : List String) :
+    parse_raw hasSection sectionKeys getValue sectionsOf defaultKeys isRelevant cp ss = ss.flatMap (sectionItems sectionKeys getValue cp.raw) := by
+  simp only [parse_raw, parse_raw_loop1_eq, List.nil_append]
+
+theorem orphan_loop_eq (cp : CpObj) (ss : List String) (acc : List String) :
+    orphan_sections_loop1 hasSection sectionKeys getValue sectionsOf defaultKeys isRelevant acc cp
+      [("Tabulation", (some "tabulation")), ("Pair", (some "pair")), ("EAM-Embed", (some "eam_embed")), ("Potential-Form", (some "potential_form")), ("EAM-Density", none), ("Table-Form", (some "table_form"))] ss =
+      acc ++ ss.filter (fun s => !isRelevant s && !mapKeys.contains s) := by
+  induction ss generalizing acc with
+  | nil => simp [orphan_sections_loop1]
+  | cons s ss ih =>
+    have hany : ([("Tabulation", (some "tabulation")), ("Pair", (some "pair")), ("EAM-Embed", (some "eam_embed")), ("Potential-Form", (some "potential_form")), ("EAM-Density", none), ("Table-Form", (some "table_form"))].any fun (e : String × Option String) => e.1 == s) = mapKeys.contains s := by
+      have hg : ∀ l : List (String × Option String), (l.any fun e => e.1 == s) = (l.map (·.1)).contains s := by
+        intro l; induction l with
+        | nil => rfl
+        | cons a l ih => simp only [List.any_cons, ih, List.map_cons, List.contains_cons, Bool.beq_comm (a := s)]
+      rw [hg]; rfl
+    simp only [orphan_sections_loop1, hany, ih, List.filter_cons]
+    cases isRelevant s <;> cases mapKeys.contains s <;> simp
+
+theorem orphan_sections_eq (cp : CpObj) :
+    orphan_sections hasSection sectionKeys getValue sectionsOf defaultKeys isRelevant cp =
+      (sectionsOf cp.raw).filter (fun s => !isRelevant s && !mapKeys.contains s) := by
+  simp only [orphan_sections, orphan_loop_eq, List.nil_append]
+
+theorem list_items_loop2_eq (cp : CpObj) (os ps : List String) (raw : IniRec) (ri : List (String × String)) (ks : List String) (acc : List (String × String)) :
+    list_items_loop2 hasSection sectionKeys getValue sectionsOf defaultKeys isRelevant cp acc os ps raw ri ks =
+      acc ++ ks.map (fun k => (raw.default_section ++ ":" ++ k, getValue raw raw.default_section k)) := by
+  induction ks generalizing acc with
+  | nil => simp [list_items_loop2]
+  | cons k ks ih => simp only [list_items_loop2, ih, List.map_cons, List.append_assoc, List.singleton_append]
+
+theorem list_items_loop1_eq (cp : CpObj) (ps : List String) (ss : List String) (acc : List (String × String)) :
+    list_items_loop1 hasSection sectionKeys getValue sectionsOf defaultKeys isRelevant cp acc ps ss =
+      acc ++ (ss.filter (fun s => isRelevant s || s == "Table-Form")).flatMap (sectionItems sectionKeys getValue cp.raw) ++
+      ((sectionsOf cp.raw).filter (fun s => !isRelevant s && !mapKeys.contains s)).flatMap (sectionItems sectionKeys getValue cp.raw) ++
+      (defaultKeys cp.raw).map (fun k => (cp.raw.default_section ++ ":" ++ k, getValue cp.raw cp.raw.default_section k)) := by
+  induction ss generalizing acc with
+  | nil => simp only [list_items_loop1, list_items_loop2_eq, parse_raw_eq, orphan_sections_eq, List.filter_nil, List.flatMap_nil, List.append_nil]
+  | cons s ss ih =>
+    simp only [list_items_loop1, ih, list_section_eq, List.filter_cons]
+    cases isRelevant s <;> cases (s == "Table-Form") <;> simp
+
+theorem parsed_loop2_eq (cp : CpObj) (M : List (String × Option String)) (ks : List String) (b : Bool) (acc : List String) :
+    parsed_sections_loop2 hasSection sectionKeys getValue sectionsOf defaultKeys isRelevant b acc cp M ks =
+      acc ++ [if (b || ks.any (strContains · "->")) then "eam_density_fs" else "eam_density"] := by
+  induction ks with
+  | nil => cases b <;> simp [parsed_sections_loop2]
+  | cons k ks ih =>
+    simp only [parsed_sections_loop2, ih, List.any_cons]
+    by_cases h : strContains k "->" = true <;> simp [h]
+
+/-- the output names of the known sections that are present -/
+def outs (hasSection : IniRec → String → Bool) (raw : IniRec) (l : List (String × Option String)) : List String :=
+  l.filterMap fun e => match e.2 with
+    | some o => if o != "" && hasSection raw e.1 then some o else none
+    | none => none
+
+theorem parsed_loop1_eq (cp : CpObj) (M l : List (String × Option String)) (acc : List String) :
+    parsed_sections_loop1 hasSection sectionKeys getValue sectionsOf defaultKeys isRelevant acc cp M l =
+      acc ++ outs hasSection cp.raw l ++
+      (if hasSection cp.raw "EAM-Density" then
+        [if (sectionKeys cp.raw "EAM-Density").any (strContains · "->") then "eam_density_fs" else "eam_density"] else []) := by
+  induction l generalizing acc with
+  | nil =>
+    simp only [parsed_sections_loop1, parsed_loop2_eq, outs, List.filterMap_nil, List.append_nil, Bool.false_or]
+    split <;> simp
+  | cons e l ih =>
+    obtain ⟨k, o⟩ := e
+    cases o with
+    | none => simp only [parsed_sections_loop1, ih, outs, List.filterMap_cons]
+    | some o =>
+      simp only [parsed_sections_loop1, ih, outs, List.filterMap_cons]
+      by_cases h1 : o = "" <;> cases hasSection cp.raw k <;> simp [h1]
+
+theorem parsed_sections_eq (cp : CpObj) :
+    parsed_sections hasSection sectionKeys getValue sectionsOf defaultKeys isRelevant cp =
+      (if hasSection cp.raw "Tabulation" then ["tabulation"] else []) ++
+      (if hasSection cp.raw "Pair" then ["pair"] else []) ++
+      (if hasSection cp.raw "EAM-Embed" then ["eam_embed"] else []) ++
+      (if hasSection cp.raw "Potential-Form" then ["potential_form"] else []) ++
+      (if hasSection cp.raw "Table-Form" then ["table_form"] else []) ++
+      (if hasSection cp.raw "EAM-Density" then
+        [if (sectionKeys cp.raw "EAM-Density").any (strContains · "->") then "eam_density_fs" else "eam_density"] else []) := by
+  simp only [parsed_sections, parsed_loop1_eq, outs, List.nil_append]
+  congr 1
+  simp only [List.filterMap_cons, List.filterMap_nil]
+  cases hasSection cp.raw "Tabulation" <;> cases hasSection cp.raw "Pair" <;> cases hasSection cp.raw "EAM-Embed" <;>
+    cases hasSection cp.raw "Potential-Form" <;> cases hasSection cp.raw "Table-Form" <;> simp
+
+theorem parsed_contains (cp : CpObj) :
+    let P := parsed_sections hasSection sectionKeys getValue sectionsOf defaultKeys isRelevant cp
+    P.contains "pair" = hasSection cp.raw "Pair" ∧
+    P.contains "potential_form" = hasSection cp.raw "Potential-Form" ∧
+    P.contains "tabulation" = hasSection cp.raw "Tabulation" ∧
+    P.contains "eam_embed" = hasSection cp.raw "EAM-Embed" ∧
+    (P.contains "eam_density" || P.contains "eam_density_fs") = hasSection cp.raw "EAM-Density" := by
+  intro P
+  simp only [P, parsed_sections_eq]
+  cases hasSection cp.raw "Tabulation" <;> cases hasSection cp.raw "Pair" <;> cases hasSection cp.raw "EAM-Embed" <;>
+    cases hasSection cp.raw "Potential-Form" <;> cases hasSection cp.raw "Table-Form" <;> cases hasSection cp.raw "EAM-Density" <;>
+    cases (sectionKeys cp.raw "EAM-Density").any (strContains · "->") <;> decide
+
+end
+
+end ListTie
+
+open Atsim.Gen.Logic ListTie in
+/-- **code tie**: `_list_items` as regenerated lists exactly the items of `listedSections`, section by section, followed by the `[Variables]` entries -/
+theorem C14_code_list_items (hasSection : IniRec → String → Bool) (sectionKeys : IniRec → String → List String) (getValue : IniRec → String → String → String)
+    (sectionsOf : IniRec → List String) (defaultKeys : IniRec → List String) (isRelevant : String → Bool) (cp : CpObj) :
+    list_items hasSection sectionKeys getValue sectionsOf defaultKeys isRelevant cp =
+      (listedSections hasSection sectionsOf isRelevant cp.raw).flatMap (sectionItems sectionKeys getValue cp.raw) ++
+      (defaultKeys cp.raw).map (fun k => (cp.raw.default_section ++ ":" ++ k, getValue cp.raw cp.raw.default_section k)) := by
+  obtain ⟨h1, h2, h3, h4, h5⟩ := parsed_contains hasSection sectionKeys getValue sectionsOf defaultKeys isRelevant cp
+  have h5' : ∀ {α : Type} (a b : α), (if (parsed_sections hasSection sectionKeys getValue sectionsOf defaultKeys isRelevant cp).contains "eam_density" = true then a
+      else if (parsed_sections hasSection sectionKeys getValue sectionsOf defaultKeys isRelevant cp).contains "eam_density_fs" = true then a else b) =
+      if hasSection cp.raw "EAM-Density" = true then a else b := by
+    intro α a b
+    rw [← h5]
+    cases (parsed_sections hasSection sectionKeys getValue sectionsOf defaultKeys isRelevant cp).contains "eam_density" <;>
+      cases (parsed_sections hasSection sectionKeys getValue sectionsOf defaultKeys isRelevant cp).contains "eam_density_fs" <;> rfl
+  simp only [list_items, h1, h2, h3, h4, h5', list_items_loop1_eq, list_pair, list_potential_form, list_tabulation, list_eam_dens, list_eam_embed,
+    list_section_eq, listedSections, knownOrder, List.filter_cons, List.filter_nil, List.flatMap_append, List.nil_append]
+  cases hasSection cp.raw "Pair" <;> cases hasSection cp.raw "Potential-Form" <;> cases hasSection cp.raw "Tabulation" <;>
+    cases hasSection cp.raw "EAM-Embed" <;> cases hasSection cp.raw "EAM-Density" <;>
+    simp only [if_true, if_false, Bool.false_eq_true, List.flatMap_cons, List.flatMap_nil, List.append_nil, List.nil_append, List.append_assoc]
+
+open Atsim.Gen.Logic ListTie in
+/-- every section of the file is listed exactly once: when `has_section` agrees with `sections()`, `sections()` has no repeats and none of the five known names looks
+like a table form, the listed sections are a permutation of the file's sections -/
+theorem C14_code_list_items_complete (hasSection : IniRec → String → Bool) (sectionsOf : IniRec → List String) (isRelevant : String → Bool) (raw : IniRec)
+    (hhas : ∀ s, hasSection raw s = true ↔ s ∈ sectionsOf raw) (hnd : (sectionsOf raw).Nodup) (hrel : ∀ s ∈ knownOrder, isRelevant s = false) :
+    (listedSections hasSection sectionsOf isRelevant raw).Perm (sectionsOf raw) := by
+  have hK : knownOrder.Nodup := by decide
+  have hTF : "Table-Form" ∉ knownOrder := by decide
+  have hmk : ∀ s, mapKeys.contains s = true ↔ (s ∈ knownOrder ∨ s = "Table-Form") := by
+    intro s; simp only [mapKeys, knownOrder, List.contains_eq_mem, List.mem_cons, List.not_mem_nil, or_false, decide_eq_true_eq]; grind
+  -- the three classes, as propositions
+  have hb : ∀ s, (isRelevant s || s == "Table-Form") = true → s ∉ knownOrder := by
+    intro s h hk
+    rw [Bool.or_eq_true, beq_iff_eq] at h
+    rcases h with h | h
+    · rw [hrel s hk] at h; exact Bool.false_ne_true h
+    · exact hTF (h ▸ hk)
+  have hc : ∀ s, (!isRelevant s && !mapKeys.contains s) = true ↔ (¬ (isRelevant s || s == "Table-Form") = true ∧ s ∉ knownOrder) := by
+    intro s
+    have := hmk s
+    cases h1 : isRelevant s <;> cases h2 : mapKeys.contains s <;> simp only [h2] at this <;> simp <;> grind
+  rw [List.perm_ext_iff_of_nodup ?_ hnd]
+  · intro s
+    simp only [listedSections, List.mem_append, List.mem_filter, hhas, hc]
+    constructor
+    · rintro ((⟨_, h⟩ | ⟨h, _⟩) | ⟨h, _⟩) <;> exact h
+    · intro h
+      by_cases hk : s ∈ knownOrder
+      · exact Or.inl (Or.inl ⟨hk, h⟩)
+      · by_cases hr : (isRelevant s || s == "Table-Form") = true
+        · exact Or.inl (Or.inr ⟨h, hr⟩)
+        · exact Or.inr ⟨h, hr, hk⟩
+  · unfold listedSections
+    rw [List.nodup_append, List.nodup_append]
+    refine ⟨⟨hK.filter _, hnd.filter _, ?_⟩, hnd.filter _, ?_⟩
+    · intro a ha b hb' hab
+      subst hab
+      rw [List.mem_filter] at ha hb'
+      exact hb a hb'.2 ha.1
+    · intro a ha b hb' hab
+      subst hab
+      rw [List.mem_append, List.mem_filter, List.mem_filter] at ha
+      rw [List.mem_filter, hc] at hb'
+      rcases ha with ha | ha
+      · exact hb'.2.2 ha.1
+      · exact hb'.2.1 ha.2
+
+open Atsim.Gen.Logic in
+/-- a one-character text is found in any text that holds the character -/
+theorem charsContain_singleton_mid (c : Char) (a b : List Char) : charsContain [c] (a ++ c :: b) = true := by
+  induction a with
+  | nil => simp [charsContain, List.isPrefixOf]
+  | cons x a ih => simp [charsContain, ih]
+
+open Atsim.Gen.Logic ListTie in
+/-- **code tie (`--item-value` agrees with `--list-items`)**: `_item_value` as regenerated, asked for the label of any item that `_list_items` lists, returns that item's
+value - provided the parser's operations are coherent (a section's own keys are options of it, listed sections exist, the `[Variables]` keys are options of the default
+section) and no option key holds a colon (the INI reader splits a line at its first `:` or `=`) -/
+theorem C14_code_item_value_of_listed (hasSection : IniRec → String → Bool) (sectionKeys : IniRec → String → List String) (getValue : IniRec → String → String → String)
+    (sectionsOf : IniRec → List String) (defaultKeys : IniRec → List String) (isRelevant : String → Bool) (hasOption : IniRec → String → String → Bool) (cp : CpObj)
+    (hsec : ∀ s ∈ sectionsOf cp.raw, hasSection cp.raw s = true)
+    (hown : ∀ s k, k ∈ sectionKeys cp.raw s → hasOption cp.raw s k = true)
+    (hdef : ∀ k ∈ defaultKeys cp.raw, hasOption cp.raw cp.raw.default_section k = true)
+    (hcol : (∀ s k, k ∈ sectionKeys cp.raw s → ':' ∉ k.toList) ∧ (∀ k ∈ defaultKeys cp.raw, ':' ∉ k.toList))
+    (label v : String) (hl : (label, v) ∈ list_items hasSection sectionKeys getValue sectionsOf defaultKeys isRelevant cp) :
+    item_value hasSection sectionKeys getValue sectionsOf defaultKeys isRelevant hasOption cp label = .ok v := by
+  rw [C14_code_list_items, List.mem_append, List.mem_flatMap, List.mem_map] at hl
+  -- the common part: a label `s:k` whose key has no colon, with the parser's answers
+  have key : ∀ s k, ':' ∉ k.toList → hasOption cp.raw s k = true → ((s == cp.raw.default_section) = true ∨ hasSection cp.raw s = true) →
+      item_value hasSection sectionKeys getValue sectionsOf defaultKeys isRelevant hasOption cp (s ++ ":" ++ k) = .ok (getValue cp.raw s k) := by
+    intro s k hk ho hs
+    have e1 : strContains (s ++ ":" ++ k) ":" = true := by
+      have : (":" : String).toList = [':'] := rfl
+      simp only [strContains, String.toList_append, this, List.append_assoc, List.singleton_append]
+      exact charsContain_singleton_mid ':' s.toList k.toList
+    have e2 := CliTie.pyRSplitLast_sep s k ':' hk
+    have c2 : String.singleton ':' = ":" := rfl
+    rw [c2] at e2
+    simp only [item_value, e1, e2, if_true, ho]
+    rcases hs with hs | hs
+    · simp only [hs, if_true]
+    · simp only [hs, if_true, ite_self]
+  rcases hl with ⟨s, hs, hi⟩ | ⟨k, hk, he⟩
+  · simp only [sectionItems, List.mem_map] at hi
+    obtain ⟨k, hk, he⟩ := hi
+    obtain ⟨rfl, rfl⟩ := Prod.mk.inj he
+    refine key s k (hcol.1 s k hk) (hown s k hk) ?_
+    right
+    simp only [listedSections, List.mem_append, List.mem_filter] at hs
+    rcases hs with (hs | hs) | hs
+    · exact hs.2
+    · exact hsec s hs.1
+    · exact hsec s hs.1
+  · obtain ⟨rfl, rfl⟩ := Prod.mk.inj he
+    exact key _ k (hcol.2 k hk) (hdef k hk) (Or.inl (beq_self_eq_true _))
+
 end Atsim.C14
